@@ -97,20 +97,22 @@ ASSUMPTIONS = [
     '(os.link cannot link directories) with non-existing targets',
     'an unwritable target is emulated by a regular file in the place of a '
     'parent directory (checks run as root, permission bits do not bind)']
-SHARDS   = {'quick': 8, 'thorough': 16}
+SHARDS   = {'quick': 16, 'thorough': 16}
 TIMEOUT  = {'quick': 240, 'thorough': 3000}
-REQUIRED = {'input_directives_checked' : 800,
-            'output_directives_checked': 300,
-            'failed_no_stage_checked'  : 100,
-            'infeasible_checked'       : 150,
-            'bystanders_checked'       : 100,
-            'form_equivalences'        : 800,
-            'url_rule_checks'          : 100,
+REQUIRED = {'input_directives_checked' : 1000,
+            'output_directives_checked': 400,
+            'failed_no_stage_checked'  : 150,
+            'infeasible_checked'       : 250,
+            'bystanders_checked'       : 300,
+            'bulks_fed_after_a_failing_bulk': 40,
+            'form_equivalences'        : 8000,
+            'url_rule_checks'          : 300,
             'set:actions_in'           : 5,
             'set:actions_out'          : 4,
-            'set:schemas'              : 6,
+            'set:schemas'              : 8,
             'set:forms'                : 6,
-            'set:faults'               : 5}
+            'set:faults'               : 5,
+            'set:outcomes'             : 4}
 
 SID = 'rp.session.verif.c11'
 PID = 'pilot.0000'
@@ -203,6 +205,32 @@ class HSession(rp.Session):
 
 # ------------------------------------------------------------------------------
 #
+class LightNet(memzmq.Net):
+    '''
+    memzmq.Net (pumped mode) whose event log keeps the uids instead of deep
+    copies of queue payloads: the monitor reads the queues themselves and the
+    state publications.  Messages still travel through msgpack.
+    '''
+
+    def q_put(self, url, qname, msgs, who=None):
+        data = memzmq._wire(msgs)
+        with self.cond:
+            q = self.queues.setdefault(url, dict()).setdefault(
+                                               qname, collections.deque())
+            q.extend(data)
+            self._event('put', url, qname, [m.get('uid') for m in data], who)
+            self.cond.notify_all()
+
+    def q_get(self, url, qname, timeout_ms=None, block=False, who=None):
+        with self.cond:
+            q = self.queues.get(url, {}).get(qname)
+            if not q:
+                return None
+            out = [q.popleft() for _ in range(min(self.bulk_size, len(q)))]
+            self._event('get', url, qname, [m.get('uid') for m in out], who)
+            return out
+
+
 class Pipeline(object):
     '''the four real staging components + real sandbox assignment'''
 
@@ -210,7 +238,7 @@ class Pipeline(object):
 
         self.root  = root
         self.bases = bases
-        self.net   = memzmq.install(memzmq.Net(seed=seed, mode='pumped'))
+        self.net   = memzmq.install(LightNet(seed=seed, mode='pumped'))
         self.reg   = memzmq.RegistryClient(url='mem://reg')
 
         for q in QUEUES:
@@ -447,17 +475,20 @@ class Oracle(object):
 # generator
 #
 def _name(rng, tag, flavour):
+    # the base name carries the tag: default targets must not collide
     stem = rng.choice(['data', 'in', 'out', 'f', 'x'])
     ext  = rng.choice(['.dat', '.txt', '', '.tar.gz'])
+    base = '%s_%s%s' % (tag, stem, ext)
     if flavour == 'space':
-        return rng.choice(['%s %s%s'   % (tag, stem, ext),
-                           'd %s/%s%s' % (tag, stem, ext),
+        return rng.choice(['%s %s%s' % (tag, stem, ext),
+                           'd %s/%s'  % (tag, base),
                            '%s  two%s' % (tag, ext)])
     if flavour == 'nested':
-        return rng.choice(['n_%s/%s%s'     % (tag, stem, ext),
-                           'n_%s/a/b/%s%s' % (tag, stem, ext),
-                           'n_%s/./c/%s%s' % (tag, stem, ext)])
-    return '%s_%s%s' % (tag, stem, ext)
+        return rng.choice(['n_%s/%s'     % (tag, base),
+                           'n_%s/%s'     % (tag, base),
+                           'n_%s/a/b/%s' % (tag, base),
+                           'n_%s/./%s'   % (tag, base)])
+    return base
 
 
 def _loc_style(rng, side, stage, role, allow_rel=True):
@@ -500,15 +531,15 @@ def gen_directive(rng, stage, tag, action=None):
     rel_src = side == 'client' or stage == 'out'
     rel_tgt = side == 'client' or stage == 'in'
 
-    flavour = rng.choice(['plain'] * 5 + ['space'] * 2 + ['nested'] * 3)
+    flavour = rng.choice(['plain'] * 6 + ['space'] * 2 + ['nested'] * 2)
     kind    = 'file'
-    if action in (rpc.TRANSFER, rpc.COPY, rpc.MOVE) and rng.random() < 0.08:
+    if action in (rpc.TRANSFER, rpc.COPY, rpc.MOVE) and rng.random() < 0.05:
         kind = 'dir'
 
     sloc, sstyle = _loc_style(rng, side, stage, 'src', rel_src)
     src = {'loc': sloc, 'style': sstyle,
-           'rel': _name(rng, 's' + tag, rng.choice(['plain', 'nested',
-                                                     flavour]))}
+           'rel': _name(rng, 's' + tag, rng.choice(['plain', 'plain', 'nested',
+                                                     flavour, flavour]))}
 
     fault = None
     roll  = rng.random()
@@ -581,7 +612,8 @@ def gen_chain(rng, stage, tag):
               'src': dict(mid),
               'tgt': {'loc': 'task', 'style': rng.choice(['schema', 'rel']),
                       'rel': 't%sb_chain.dat' % tag},
-              'kind': 'file', 'fault': None, 'tag': tag + 'b', 'chain': 'prev'}
+              'kind': 'file', 'fault': None, 'tag': tag + 'b', 'chain': 'prev',
+              'ctag': tag + 'a'}
     else:
         d1 = {'action': second, 'form': 'dict',
               'src': {'loc': 'task', 'style': rng.choice(['schema', 'rel']),
@@ -592,14 +624,15 @@ def gen_chain(rng, stage, tag):
               'src': dict(mid),
               'tgt': {'loc': 'client', 'style': rng.choice(['schema', 'rel']),
                       'rel': 't%sb_chain.dat' % tag},
-              'kind': 'file', 'fault': None, 'tag': tag + 'b', 'chain': 'prev'}
+              'kind': 'file', 'fault': None, 'tag': tag + 'b', 'chain': 'prev',
+              'ctag': tag + 'a'}
     return [d1, d2]
 
 
 def gen_case(rng, idx):
 
     tasks = list()
-    for t in range(rng.randint(2, 5)):
+    for t in range(rng.choice([2, 2, 3, 3, 4, 5])):
         uid  = 'task.%06d' % t
         task = {'uid'           : uid,
                 'sandbox'       : rng.choice(['default'] * 7 + ['named'] * 2 +
@@ -630,7 +663,8 @@ def gen_case(rng, idx):
 # file helpers
 #
 def content_of(d):
-    return 'content of %s (%s)\n' % (d['tag'], d['action'])
+    # the second step of a chain carries the data of the first one
+    return 'content of %s\n' % d.get('ctag', d['tag'])
 
 
 def make_source(path, d):
@@ -717,16 +751,23 @@ def check_target(d, stage, task, orc, root):
     rel = os.path.relpath(tgt, root)
 
     if got is None or got[0] == 'dangling':
-        if act == rpc.TARBALL:
+        # the two recorded defects get their own keys only when the witness
+        # shows that mechanism: the tarball arrived but was not unpacked / the
+        # data of a space-named copy was not put anywhere
+        where   = whereabouts(root, d)
+        tarball = os.path.join(orc.task_sandbox(task), '%s.tar' % task['uid'])
+        if act == rpc.TARBALL and os.path.isfile(tarball):
             mech = 'tarball-not-unpacked'
-        elif act in (rpc.COPY, rpc.TRANSFER) and has_space(src, tgt):
+        elif act in (rpc.COPY, rpc.TRANSFER) and has_space(src, tgt) \
+                and not [w for w in where if not os.path.join(root, w)
+                                                        .startswith(src)]:
             mech = 'copy-name-with-space-not-staged'
         else:
             mech = 'target-missing'
         out.append((mech, '%s %s directive %s: expected target %s does not '
                           'exist (%s); data found at %s'
                           % (stage, act, d['tag'], rel, got,
-                             whereabouts(root, d))))
+                             where)))
         return out
 
     if got != exp:
@@ -855,20 +896,41 @@ def halves(items, cut):
     return [items[:cut], items[cut:]]
 
 
+def clean_tree(root, keep):
+    '''
+    empty the tree but keep the skeleton directories (rmdir is the most
+    expensive file system call here, so the sandbox skeleton is reused)
+    '''
+    for base, dirs, files in os.walk(root, topdown=False):
+        for f in files:
+            os.unlink(os.path.join(base, f))
+        for d in dirs:
+            full = os.path.join(base, d)
+            if os.path.islink(full):
+                os.unlink(full)
+            elif full not in keep:
+                os.rmdir(full)
+
+
 def run_case(case, res, workdir):
 
-    root = os.path.join(os.path.realpath(workdir), 'case.%s' % case['id'])
-    shutil.rmtree(root, ignore_errors=True)
+    root = os.path.join(os.path.realpath(workdir), 'tree')
     orc  = Oracle(root)
+    keep = set()
     for d in ('client', 'ext', 'workdir', 'pilot'):
-        os.makedirs(orc.bases[d], exist_ok=True)
+        path = orc.bases[d]
+        os.makedirs(path, exist_ok=True)
+        while path != root:
+            keep.add(path)
+            path = os.path.dirname(path)
+    clean_tree(root, keep)
 
-    pipe = Pipeline(root, orc.bases, seed=case['id'])
+    pipe = Pipeline(root, orc.bases, seed=0)
     try:
         _run_case(case, res, root, orc, pipe)
     finally:
         pipe.close()
-        shutil.rmtree(root, ignore_errors=True)
+        clean_tree(root, keep)
 
 
 def _run_case(case, res, root, orc, pipe):
@@ -975,6 +1037,8 @@ def _run_case(case, res, root, orc, pipe):
 
     # -- stage 1 + 2: tmgr stage-in, agent stage-in ----------------------------
     cut = case['cut']
+    if order[cut:] and any(infeasible(spec[u]['inputs']) for u in order[:cut]):
+        res.count('bulks_fed_after_a_failing_bulk')
     pipe.step(pipe.tsi, rpc.TMGR_STAGING_INPUT_QUEUE,
               halves([dicts[u] for u in order], cut))
     fwd1 = pipe.take(rpc.PROXY_TASK_QUEUE, qname=PID)
@@ -1249,7 +1313,7 @@ def run(ctx):
 
     check_url_rules(res, ctx.rng('urls'))
 
-    n = ctx.n(1600, 40000)
+    n = ctx.n(640, 40000)
     for i in range(n):
         case = gen_case(rng, '%d.%d' % (ctx.shard, i))
         res.evaluations += 1
